@@ -97,9 +97,6 @@ def zooSpec : List (String × String × String) :=
    ("store_array_into_slice_elem", "stored:4,5|go:[{1 []}]|[[4 5]]|false|[[1 2]]|int:1", "store_array_into_slice_element_rejected"),
    ("nested_array_elem_write", "v:9|go:[[1 9] [3 4]]|[[1 2]]|[{1 []}]", "nested_element_is_a_copy"),
    ("slice_of_array_elem_write", "v:9|go:[[1 2] [3 4]]|[[1 9]]|[{1 []}]", "nested_element_is_a_copy"),
-   ("slice_of_struct_field_write", "v:5|go:[[1 2] [3 4]]|[[1 2]]|[{5 []}]", "nested_element_is_a_copy"),
-   ("unicode_field_name", "1,true,2,2|go:{Ärger:1 A:2}", "struct_non_ascii_exported_field_hidden"),
-   ("struct_param_from_bridged_map", "caught:TypeError", "call_struct_parameter_from_bridged_value_zeroed"),
-   ("struct_param_from_other_struct", "caught:TypeError", "call_struct_parameter_from_bridged_value_zeroed")]
+   ("slice_of_struct_field_write", "v:5|go:[[1 2] [3 4]]|[[1 2]]|[{5 []}]", "nested_element_is_a_copy")]
 
 end OttoVerif.C16.Spec
